@@ -36,7 +36,18 @@ ASSUMPTIONS = ['environment per family assembled from the shipped config of that
 REQUIRED = {'quick': {f'solved.{n}': 6 for n in ['empty', 'rooms', 'dynamic_obstacles', 'keydoor', 'crossing', 'teleport',
                                                   'memory', 'memory_rooms']}}
 REQUIRED['quick']['instances'] = 150
+REQUIRED['quick']['solved.crossing_obstacle_rivers'] = 6
 
+# crossing whose rivers are moving obstacles (non-blocking, but stepping on one terminates): the openings matter
+OBSTACLE_RIVERS = {
+    'state_space': {'objects': ['Wall', 'Floor', 'Exit', 'MovingObstacle'], 'colors': ['NONE']},
+    'observation_space': {'objects': ['Wall', 'Floor', 'Exit', 'MovingObstacle'], 'colors': ['NONE']},
+    'reset_function': {'name': 'crossing', 'shape': [5, 5], 'num_rivers': 1, 'object_type': 'MovingObstacle'},
+    'transition_functions': [{'name': 'move_agent'}, {'name': 'turn_agent'}],
+    'reward_functions': [{'name': 'living_reward', 'reward': 0.0}],
+    'observation_function': {'name': 'partially_occluded', 'area': [[-6, 0], [-3, 3]]},
+    'terminating_function': {'name': 'reduce_any', 'terminating_functions': [{'name': 'reach_exit'}, {'name': 'bump_moving_obstacle'}]},
+}
 FAMILY_CONFIG = {
     'empty': 'gv_empty.4x4', 'rooms': 'gv_four_rooms.7x7', 'dynamic_obstacles': 'gv_dynamic_obstacles.5x5',
     'keydoor': 'gv_keydoor.5x5', 'crossing': 'gv_crossing.5x5', 'teleport': 'gv_teleport.5x5', 'memory': 'gv_memory.5x5',
@@ -49,7 +60,7 @@ _ENVS = {}
 def family_env(family, configs):
     """GridWorld with the dynamics and termination of the family's shipped config"""
     if family not in _ENVS:
-        data = copy.deepcopy(configs[FAMILY_CONFIG[family]])
+        data = copy.deepcopy(OBSTACLE_RIVERS if family == 'crossing_obstacle_rivers' else configs[FAMILY_CONFIG[family]])
         data['reward_functions'] = [{'name': 'living_reward', 'reward': 0.0}]  # rewards do not affect reachability
         _ENVS[family] = (compose.build_env(data), data)
     return _ENVS[family]
@@ -125,6 +136,10 @@ def classify(env, family, state, max_nodes):
     return f'{family}.unwinnable'
 
 
+def tag_of(how):
+    return how.get('tag') if isinstance(how, dict) else None
+
+
 def instance(ctx, configs, family, params, state, how, max_nodes):
     env, data = family_env(family, configs)
     # the family env was sized from a sample reset; resize its spaces to this instance
@@ -148,6 +163,8 @@ def instance(ctx, configs, family, params, state, how, max_nodes):
         ctx.cat(f'path_len.{family}.{min(len(path) // 5 * 5, 40)}+')
         if len(path) >= 3:
             ctx.nontrivial((family, enc.es(state)))
+        if tag_of(how) == 'long_layout':
+            ctx.hit('solved.long_layouts')
         if ctx.hits['solved.' + family] <= 1:
             ctx.sample('solved', {'family': family, 'params': params, 'state': enc.render(state),
                                   'history': [a.name for a in path]}, per_kind=8)
@@ -165,7 +182,7 @@ def instance(ctx, configs, family, params, state, how, max_nodes):
 
 
 def seeded_instances(ctx, configs, family, params, seeds, max_nodes, tag):
-    fn = compose.build('reset', {'name': family, **params})
+    fn = compose.build('reset', {'name': 'crossing' if family == 'crossing_obstacle_rivers' else family, **params})
     for s in seeds:
         ok, state = call_real(fn, rng=np.random.default_rng(s))
         if not ok:
@@ -223,6 +240,8 @@ GRID = [
     ('crossing', {'shape': [7, 9], 'num_rivers': 3, 'object_type': 'Wall'}),
     ('crossing', {'shape': [9, 9], 'num_rivers': 6, 'object_type': 'Wall'}),
     ('crossing', {'shape': [11, 7], 'num_rivers': 50, 'object_type': 'Wall'}),
+    ('crossing_obstacle_rivers', {'shape': [5, 5], 'num_rivers': 1, 'object_type': 'MovingObstacle'}),
+    ('crossing_obstacle_rivers', {'shape': [7, 9], 'num_rivers': 3, 'object_type': 'MovingObstacle'}),
     ('teleport', {'shape': [4, 4]}),
     ('teleport', {'shape': [6, 7]}),
     ('memory', {'shape': [5, 5], 'colors': ['RED', 'BLUE']}),
@@ -255,6 +274,18 @@ def run(ctx):
         jobs.append(('shipped:' + name, family, spec, ctx.pick(40, 2000)))
     for family, params in GRID:
         jobs.append(('grid', family, params, ctx.pick(16, 600)))
+    # many rooms along one dimension (sizes up to 64, 5..14 rooms)
+    lrng = gen.rng_for('C14long', ctx.seed)
+    pairs = [(size, n) for size in (16, 24, 31, 32, 48, 50, 62, 64) for n in (5, 7, 9, 11, 13, 14)]
+    if not ctx.thorough:
+        pairs = lrng.sample(pairs, 24) + [(lrng.randint(10, 70), lrng.randint(2, 15)) for _ in range(8)]
+    else:
+        pairs += [(size, n) for size in range(8, 72, 3) for n in range(2, 16, 2)]
+    for (size, n) in pairs:
+        for orient in (0, 1):
+            shape = [size, 5] if orient == 0 else [5, size]
+            layout = [n, 1] if orient == 0 else [1, n]
+            jobs.append(('long_layout', 'rooms', {'shape': shape, 'layout': layout}, ctx.pick(2, 8)))
     with reach(ctx, [getattr(reset_fs, n) for n in FAMILY_CONFIG]):
         if ctx.shard == 0:
             # the witness input of the listed known finding F1 is replayed on every run, so that the finding is always
@@ -276,7 +307,7 @@ def replay(ctx, kind, payload):
     reset_gv_debug(False)
     configs = dict((n, d) for n, _, d in compose.shipped_configs(include_examples=False))
     family, params = payload['family'], payload['params']
-    fn = compose.build('reset', {'name': family, **params})
+    fn = compose.build('reset', {'name': 'crossing' if family == 'crossing_obstacle_rivers' else family, **params})
     if 'seed' in payload:
         ok, state = call_real(fn, rng=np.random.default_rng(payload['seed']))
     else:
